@@ -66,16 +66,17 @@ type Evaluator struct {
 	FuncDecl func(*types.Func) (*ast.FuncDecl, *packages.Package)
 	Extern   map[string]ExternFn
 	// Domain gives the element domain of an abstract sequence (values enumerated on read).
-	Domain   func(seq AbsSeq) []Value
-	MaxSteps int
-	steps    int
-	frames   []*frame
-	loops    []*loopCtx
-	nloop    int
-	Loops    []*LoopSummary
-	Sent     []SendRec
-	globals  map[types.Object]*Var
-	depth    int
+	Domain    func(seq AbsSeq) []Value
+	MaxSteps  int
+	steps     int
+	frames    []*frame
+	loops     []*loopCtx
+	nloop     int
+	Loops     []*LoopSummary
+	Sent      []SendRec
+	globals   map[types.Object]*Var
+	depth     int
+	SortCalls []token.Pos
 }
 
 type SendRec struct {
@@ -1288,6 +1289,8 @@ func (ev *Evaluator) convert(pos token.Pos, x Value, to, from types.Type) Value 
 					sb.WriteByte(byte(l.C))
 				}
 				return S(sb.String())
+			case BytesOf:
+				return xv.S
 			case AbsSeq, CatSeq, ListVal:
 				return SSym("string(" + Show(xv) + ")")
 			}
@@ -1303,8 +1306,8 @@ func (ev *Evaluator) convert(pos token.Pos, x Value, to, from types.Type) Value 
 				}
 				return NewSlice(out...)
 			}
-			return ListVal{Base: "bytes(" + xv.String() + ")"}
-		case Slice, AbsSeq, CatSeq, ListVal, Nil:
+			return BytesOf{S: xv}
+		case Slice, AbsSeq, CatSeq, ListVal, Nil, BytesOf:
 			return xv
 		}
 	case *types.Interface, *types.Struct, *types.Map, *types.Array, *types.Signature:
@@ -1375,10 +1378,9 @@ func (ev *Evaluator) builtin(env *Env, e *ast.CallExpr, name string) Value {
 			n := copy(d.Elems(), s.Elems())
 			return K(int64(n))
 		}
-		if _, ok := dst.(Slice); ok {
-			if lv, ok := src.(ListVal); ok && len(lv.App) == 0 {
-				ev.fail(e.Pos(), "copy from abstract list into concrete slice")
-			}
+		if a, ok := dst.(AbsSeq); ok && a.Fill != nil {
+			a.Fill.V = Opaque{Why: "copy of " + Show(src)}
+			return ev.seqLen(e.Pos(), src)
 		}
 		ev.fail(e.Pos(), "copy(%s, %s)", Show(dst), Show(src))
 	case "delete":
@@ -1609,6 +1611,10 @@ func (ev *Evaluator) native(pos token.Pos, fn *types.Func, recv Value, args []Va
 		if ok {
 			return &FExpr{Op: "floor", A: f}, true
 		}
+	case "sort.Slice", "sort.SliceStable", "sort.Sort", "sort.Strings", "sort.Ints":
+		// ordering is not modelled: the sorted value keeps its (abstract) contents
+		ev.SortCalls = append(ev.SortCalls, pos)
+		return nil, true
 	case "errors.New":
 		return ErrVal{Msg: argStr(0)}, true
 	case "fmt.Errorf", "fmt.Sprintf":
